@@ -49,7 +49,7 @@ def bounds(tier):
     q = tier == "quick"
     return {
         "script_events": 5 if q else 6,
-        "sends": 2 if q else 3,
+        "sends": 2,
         "partitions_of_t": 2,
         "max_req_attempts": "SymInt in [1,3]",
         "fault_budget": 2 if q else 3,
@@ -87,7 +87,7 @@ def jobs(tier):
                             "codec": codec,
                             "api": api,
                             "K": 5 if q else 6,
-                            "sends": 2 if q else 3,
+                            "sends": 2,
                             "faults": 2 if q else 3,
                             "max_attempts": 3,
                             "two_topics": True,
